@@ -51,7 +51,7 @@ def meta(tier):
                 'endianness x address width); each history is completed with constants K0/K1, definitions for labels that were '
                 'referenced but not defined (so references are forward as well as backward) and a suffix that emits every '
                 'label value; the whole image from address 0 must equal the reference layout; non-trivial = history with a '
-                'label reference and an address-moving line (origin/align/zone/fill); plus every history up to depth 4 (thorough 5) over a 12-symbol multi-file alphabet (labels, references, origins, zone switches, alignment, and includes of a plain file, of a file that switches zone, of a file with its own origin), with every label of every file read out at the end; states = distinct reference states',
+                'label reference and an address-moving line (origin/align/zone/fill); plus every history up to depth 4 (thorough 5) over a 12-symbol multi-file alphabet (labels, references, origins, zone switches, alignment, and includes of a plain file, of a file that switches zone, of a file with its own origin), with every label of every file read out at the end; plus a 64-bit address space with origins at and above 2^53 x 5 alignments x 0..7 bytes before the alignment; states = distinct reference states',
         'bounds': {'alphabet': [R.render_stmt(s) if s[0] != 'excluded' else '#if 0 / .byte 1,2,3 / G9: / #endif' for s in SIGMA],
                    'depth_full': 3 if q else 4, 'depth_core': 4 if q else 5, 'configs': [c[0] for c in CONFIGS]},
         'assumptions': [
@@ -59,7 +59,7 @@ def meta(tier):
             'does not say which of the two addresses "the next line" has)',
             'muted lines occupy addresses', 'constants defined from address labels are not generated',
         ],
-        'floors': {'evaluations': 1000, 'nontrivial': 100, 'statuses': ['OK', 'REJECT'], 'clauses': ['accepted', 'multi-file']},
+        'floors': {'evaluations': 1000, 'nontrivial': 100, 'statuses': ['OK', 'REJECT'], 'clauses': ['accepted', 'multi-file', 'wide-address']},
         'nshards': 64,
     }
 
@@ -121,6 +121,7 @@ def shard(acc, tier, idx, n):
                                             sample=(len(h) == depth))
                 acc.state((ci, ref.state_key) if ref.status != 'REJECT' else (ci, 'REJECT'))
     multi_file(acc, idx, n, q)
+    wide_addresses(acc, idx, n)
 
 
 MULTI = [('label', 'G0'), ('nop',), ('jmp', ('lab', 'G0')), ('data', 2, [('lab', 'G1')]), ('org', 2, 'zz'), ('memzone', 'zz'), ('memzone', 'GLOBAL'),
@@ -172,6 +173,25 @@ def multi_file(acc, idx, n, q):
                                     nontrivial=(('multi', h) if any(s[0] in ('org', 'memzone', 'align') for s in h) else None),
                                     sample=(len(h) == depth and h[0][0] == 'memzone' and h[-1][0] == 'inc'))
         acc.state(('multi', ref.state_key) if ref.status != 'REJECT' else ('multi', 'REJECT'))
+
+
+def wide_addresses(acc, idx, n):
+    """Alignment and label values where addresses no longer fit a double: 64-bit address space, origins at and above 2^53."""
+    import itertools
+    params = R.Params(address_size=64, endian='little', origin=0, page_size=1)
+    isa = probe_isa(64, 'little')
+    ctr = 0
+    for base, k, pre in itertools.product((1 << 53, (1 << 53) + 1, 0xFFFF800000000000, (1 << 60) + 5, (1 << 63) + 0x1001, 0x20000000000008),
+                                          (2, 8, 16, 24, 10), (0, 1, 3, 7)):
+        ctr += 1
+        if ctr % n != idx:
+            continue
+        stmts = [('org', base, None)] + ([('data', 1, list(range(1, pre + 1)))] if pre else []) + \
+                [('align', k), ('label', 'W0'), ('data', 1, [0xEE]), ('data', 8, [('lab', 'W0')])]
+        files = {'main.asm': stmts}
+        ref, out, msg = run_program(acc, params, isa, files, start=base, end=base + 63, clause='wide-address',
+                                    nontrivial=('wide', base, k, pre), sample=(pre == 3 and k == 16))
+        acc.state(('wide', base, k, pre))
 
 
 def judge(spec, outcomes):
